@@ -1,6 +1,7 @@
 package main
 
 import (
+	"sort"
 	"encoding/json"
 	"fmt"
 	"math"
@@ -478,6 +479,18 @@ func wireStages(stages []logql.PipelineStage) []F {
 			out = append(out, F{"t": "logfmt", "labels": wireLabels(st.Labels), "exprs": ex})
 		case *logql.PatternLabelParser:
 			out = append(out, F{"t": "pattern", "txt": B(st.Pattern)})
+		case *logql.RegexpLabelParser:
+			// named groups in index order (the generated expressions have no unnamed capturing groups)
+			idx := make([]int, 0, len(st.Mapping))
+			for i := range st.Mapping {
+				idx = append(idx, i)
+			}
+			sort.Ints(idx)
+			names := [][]int{}
+			for _, i := range idx {
+				names = append(names, B(string(st.Mapping[i])))
+			}
+			out = append(out, F{"t": "regexp", "txt": B(st.Regexp.String()), "names": names})
 		case *logql.UnpackLabelParser:
 			out = append(out, F{"t": "unpack"})
 		case *logql.DecolorizeExpr:
@@ -499,8 +512,6 @@ func wireStages(stages []logql.PipelineStage) []F {
 			out = append(out, F{"t": "keep", "labels": wireLabels(st.Labels), "matchers": wireMatchers(st.Matchers)})
 		case *logql.DistinctFilter:
 			out = append(out, F{"t": "distinct", "labels": wireLabels(st.Labels)})
-		case *logql.RegexpLabelParser:
-			out = append(out, F{"t": "regexp", "txt": B(st.Regexp.String())})
 		default:
 			out = append(out, F{"t": "?"})
 		}
